@@ -354,6 +354,8 @@ def run(check, an: Analysis):
     check.instance('forced-close', 'sites-found', n >= 20, '', '%d functions can receive '
                    'GeneratorExit at a suspension point' % n, nontrivial=False)
     _scope.check_typestate(check, an)
+    from . import _scope as _sc
+    _sc.check_scope_core(check, an, skip=('close', 'copies', 'only-exit', 'task-close'))
     check.stats.update(an.stats())
 
 
